@@ -144,6 +144,9 @@ pub enum Fault {
     FailBefore,
     /// A bulk call writes its first k documents, then fails reporting exactly those ids.
     FailAfter(usize),
+    /// A bulk call writes every document except the one at this index, then fails reporting
+    /// exactly the written ids (successes that are NOT a prefix of the batch).
+    FailOnly(usize),
     /// The call writes its first k documents (everything for a single-document call when
     /// k >= 1) and then never returns: the node "crashes" inside the request.
     ParkAfter(usize),
@@ -199,6 +202,16 @@ impl<I: Storage> FaultStore<I> {
     }
 }
 
+/// Which documents of a bulk call reach the inner store under a fault.
+fn written_indices(fault: Fault, len: usize) -> Vec<usize> {
+    match fault {
+        Fault::None => (0..len).collect(),
+        Fault::FailBefore => vec![],
+        Fault::FailAfter(k) | Fault::ParkAfter(k) => (0..k.min(len)).collect(),
+        Fault::FailOnly(i) => (0..len).filter(|x| *x != i).collect(),
+    }
+}
+
 fn injected() -> StoreErr {
     StoreErr("injected storage failure".into())
 }
@@ -230,29 +243,25 @@ where
         let fault = self.next_fault();
         let zero = HLCTimestamp::from_u64(0);
         let docs: Vec<_> = keys.iter().map(|k| (*k, zero, None)).collect();
-        let k = match fault {
-            Fault::None => keys.len(),
-            Fault::FailBefore => 0,
-            Fault::FailAfter(k) | Fault::ParkAfter(k) => k.min(keys.len()),
-        };
-        if k > 0 || fault == Fault::None {
+        let written: Vec<usize> = written_indices(fault, keys.len());
+        if !written.is_empty() || fault == Fault::None {
             self.inner
-                .remove_tombstones(keyspace, keys[..k].iter().copied())
+                .remove_tombstones(keyspace, written.iter().map(|i| keys[*i]))
                 .await
                 .map_err(|e| BulkMutationError::empty_with_error(StoreErr(e.to_string())))?;
         }
-        self.record(LogEntry { call: "remove_tombstones", keyspace: keyspace.into(), docs, written: k, fault });
+        self.record(LogEntry { call: "remove_tombstones", keyspace: keyspace.into(), docs, written: written.len(), fault });
         match fault {
             Fault::None => Ok(()),
             Fault::ParkAfter(_) => std::future::pending().await,
-            _ => Err(BulkMutationError::new(injected(), keys[..k].to_vec())),
+            _ => Err(BulkMutationError::new(injected(), written.iter().map(|i| keys[*i]).collect())),
         }
     }
 
     async fn put(&self, keyspace: &str, document: Document) -> Result<(), StoreErr> {
         let fault = self.next_fault();
         let docs = vec![(document.id(), document.last_updated(), Some(document.data().to_vec()))];
-        let write = !matches!(fault, Fault::FailBefore | Fault::FailAfter(0) | Fault::ParkAfter(0));
+        let write = !matches!(fault, Fault::FailBefore | Fault::FailAfter(0) | Fault::ParkAfter(0) | Fault::FailOnly(_));
         if write {
             self.inner.put(keyspace, document).await.map_err(|e| StoreErr(e.to_string()))?;
         }
@@ -276,29 +285,26 @@ where
             .iter()
             .map(|d| (d.id(), d.last_updated(), Some(d.data().to_vec())))
             .collect();
-        let k = match fault {
-            Fault::None => all.len(),
-            Fault::FailBefore => 0,
-            Fault::FailAfter(k) | Fault::ParkAfter(k) => k.min(all.len()),
-        };
-        if k > 0 {
+        let written: Vec<usize> = written_indices(fault, all.len());
+        if !written.is_empty() {
             self.inner
-                .multi_put(keyspace, all[..k].iter().cloned())
+                .multi_put(keyspace, written.iter().map(|i| all[*i].clone()))
                 .await
                 .map_err(|e| BulkMutationError::empty_with_error(StoreErr(e.to_string())))?;
         }
-        self.record(LogEntry { call: "multi_put", keyspace: keyspace.into(), docs, written: k, fault });
+        let docs = if matches!(fault, Fault::FailOnly(_)) { written.iter().map(|i| docs[*i].clone()).collect() } else { docs };
+        self.record(LogEntry { call: "multi_put", keyspace: keyspace.into(), docs, written: written.len(), fault });
         match fault {
             Fault::None => Ok(()),
             Fault::ParkAfter(_) => std::future::pending().await,
-            _ => Err(BulkMutationError::new(injected(), all[..k].iter().map(|d| d.id()).collect())),
+            _ => Err(BulkMutationError::new(injected(), written.iter().map(|i| all[*i].id()).collect())),
         }
     }
 
     async fn mark_as_tombstone(&self, keyspace: &str, doc_id: Key, timestamp: HLCTimestamp) -> Result<(), StoreErr> {
         let fault = self.next_fault();
         let docs = vec![(doc_id, timestamp, None)];
-        let write = !matches!(fault, Fault::FailBefore | Fault::FailAfter(0) | Fault::ParkAfter(0));
+        let write = !matches!(fault, Fault::FailBefore | Fault::FailAfter(0) | Fault::ParkAfter(0) | Fault::FailOnly(_));
         if write {
             self.inner
                 .mark_as_tombstone(keyspace, doc_id, timestamp)
@@ -322,22 +328,19 @@ where
         let all: Vec<DocumentMetadata> = documents.collect();
         let fault = self.next_fault();
         let docs: Vec<_> = all.iter().map(|d| (d.id, d.last_updated, None)).collect();
-        let k = match fault {
-            Fault::None => all.len(),
-            Fault::FailBefore => 0,
-            Fault::FailAfter(k) | Fault::ParkAfter(k) => k.min(all.len()),
-        };
-        if k > 0 {
+        let written: Vec<usize> = written_indices(fault, all.len());
+        if !written.is_empty() {
             self.inner
-                .mark_many_as_tombstone(keyspace, all[..k].iter().copied())
+                .mark_many_as_tombstone(keyspace, written.iter().map(|i| all[*i]))
                 .await
                 .map_err(|e| BulkMutationError::empty_with_error(StoreErr(e.to_string())))?;
         }
-        self.record(LogEntry { call: "mark_many_as_tombstone", keyspace: keyspace.into(), docs, written: k, fault });
+        let docs = if matches!(fault, Fault::FailOnly(_)) { written.iter().map(|i| docs[*i].clone()).collect() } else { docs };
+        self.record(LogEntry { call: "mark_many_as_tombstone", keyspace: keyspace.into(), docs, written: written.len(), fault });
         match fault {
             Fault::None => Ok(()),
             Fault::ParkAfter(_) => std::future::pending().await,
-            _ => Err(BulkMutationError::new(injected(), all[..k].iter().map(|d| d.id).collect())),
+            _ => Err(BulkMutationError::new(injected(), written.iter().map(|i| all[*i].id).collect())),
         }
     }
 
